@@ -1,6 +1,6 @@
 /* C16 iso_dispatch: isolation bookkeeping of the real dispatcher loop (one model thread, world of props/C03).
- * Symbolic: the 64-bit tags X (task A), Y (task B), Z (critical task C, may be 0), V (B's isolate scope, non-zero), Q (foreign task H)
- * and which of the bodies P, C, F, B spawn their child.  Scenario: see w_isod.cpp (vp_isod). */
+ * Symbolic: the 64-bit tags X (task A), Y (task B), Z (critical task C, may be 0) and which of the bodies P, C, F, B spawn their child;
+ * concrete per query: V (B's isolate scope, non-zero) and Q (foreign task H on top of the pool: different tag / untagged / same tag).  Scenario: see w_isod.cpp (vp_isod). */
 #include "w.h"
 #include "vp.h"
 #define VP_REAL_ARENA_CPP 1
@@ -56,8 +56,10 @@ void vp_iso_level(u32 where, u64 ed_iso, u64 expected) {
 /* unused observers of the shared world header */
 void vp_body(u32 i) {} void vp_note(u32 a, u32 b) {} void vp_wait_result(u32 a, u32 b, u32 c, u32 d) {}
 int main(void) {
-  for (int k = 0; k < 5; k++) TAG[k] = vp_nd();
-  __CPROVER_assume(TAG[3] != 0);           /* isolate(d, 0) would use the delegate's address as the tag: outside */
+  for (int k = 0; k < 3; k++) TAG[k] = vp_nd();     /* X, Y, Z: any 64-bit words (they are carried around, never compared by a non-isolated waiter) */
+  TAG[3] = VTAG; TAG[4] = QTAG;                     /* the isolate scope's tag V (non-zero; isolate(d, 0) would use the delegate's address: outside) and the foreign
+                                                       task's tag Q are concrete per query: the nested waiter compares them at every get_task, and with --paths every
+                                                       repeated symbolic comparison doubles the paths.  Symbolic tags in the filter itself: harness `isolation`. */
   SP = (u32)vp_nd_range(0, 1023) & ((1u << P) | (1u << C) | (1u << F) | (1u << B));
   vp_world_setup();
   vp_isod(0);
